@@ -235,7 +235,16 @@ impl Envelope {
     pub fn uncompress_subject(&self) -> Result<Self> {
         if self.subject().is_compressed() {
             let subject = self.subject().uncompress()?;
-            Ok(self.replace_subject(subject))
+            // Rebuild the node over the uncompressed subject with the *same*
+            // assertions. `replace_subject` must not be used here: when the
+            // uncompressed subject is itself a node it would merge the
+            // assertions into it, changing the structure and the digest.
+            match self.case() {
+                EnvelopeCase::Node { assertions, .. } => {
+                    Ok(Self::new_with_unchecked_assertions(subject, assertions.clone()))
+                }
+                _ => Ok(subject),
+            }
         } else {
             Ok(self.clone())
         }
